@@ -237,3 +237,54 @@ Proof.
     rewrite EB. repeat split; auto. rewrite LEN.
     replace (len L - len (flat_map edata es) + len (flat_map edata es)) with (len L) by lia. reflexivity.
 Qed.
+
+(* ... and an entry whose own bytes were not among the changed ones reads back exactly as stored: for the entry e standing
+   behind the entries `pre` (first of its name), if the damaged data area still holds e's bytes at e's place, reading e from the
+   damaged archive returns them - whatever happened to the bytes of the other entries. *)
+Lemma find_starts_at : forall pre e post b,
+  Forall (fun x => wf_key (ename x) /\ u32 (len (edata x)) /\ u32 (etime x)) (pre ++ e :: post) ->
+  Forall (fun x => eqbl (ename x) (ename e) = false) pre ->
+  forall tl, find (fun h => eqbl (h_name h) (ename e) && negb (invalid (h_name h))) (starts b (pre ++ e :: post) ++ tl)
+  = Some {| h_name := ename e; h_method := 0; h_orig := len (edata e); h_time := etime e;
+            h_size := len (edata e); h_start := b + len (flat_map edata pre) |}.
+Proof.
+  induction pre as [|x pre IH]; intros e post b HF HN tl.
+  - cbn [app starts find h_name flat_map]. inversion HF as [|? ? ((_ & _ & Hi) & _) _]; subst.
+    rewrite (proj2 (eqbl_spec (ename e) (ename e)) eq_refl), Hi. cbn [negb andb].
+    change (len (@nil byte)) with 0. rewrite Z.add_0_r. reflexivity.
+  - inversion HF as [|? ? _ HF']; subst. inversion HN as [|? ? Hx HN']; subst.
+    cbn [app starts find h_name]. rewrite Hx. cbn [andb].
+    rewrite (IH e post (b + len (edata x)) HF' HN' tl). cbn [flat_map]. rewrite len_app. f_equal. f_equal. lia.
+Qed.
+
+Theorem data_corruption_intact_entry : forall ps pre e post d',
+  let a := {| props := ps; entries := pre ++ e :: post |} in
+  wf a -> length d' = length (flat_map edata (entries a)) ->
+  Forall (fun x => eqbl (ename x) (ename e) = false) pre ->
+  slice d' (len (flat_map edata pre)) (len (edata e)) = edata e ->
+  let L := pack a in
+  let L' := firstn (length L - length d') L ++ d' in
+  exists p', open L' = Some p' /\ read_entry L' p' (ename e) = Some (edata e).
+Proof.
+  intros ps pre e post d' a W Hd HN HS L L'.
+  destruct (data_corruption_table a d' W Hd) as (p' & HO & _ & HH & _).
+  exists p'. split; [exact HO|].
+  unfold read_entry. rewrite HH. unfold packed_pbo. cbn [p_hdrs]. fold L.
+  destruct W as [_ He]. cbn [entries a] in *.
+  rewrite (find_starts_at pre e post _ He HN). cbn [h_start h_size]. f_equal.
+  (* the slice of L' at e's place is the slice of d' at e's offset in the data area *)
+  set (D := flat_map edata (pre ++ e :: post)) in *.
+  assert (EL : (length L - length d')%nat = length (firstn (length L - length d') L)).
+  { rewrite firstn_length. lia. }
+  set (H := firstn (length L - length d') L) in *.
+  assert (LH : len H = len L - len D).
+  { unfold len. rewrite <- EL. assert (length d' <= length L)%nat.
+    { rewrite Hd. unfold L, pack. rewrite !app_length. cbn [entries a]. fold D. lia. }
+    rewrite Nat2Z.inj_sub by assumption. rewrite Hd. reflexivity. }
+  unfold L'. unfold slice. rewrite <- LH.
+  replace (Z.to_nat (len H + len (flat_map edata pre))) with (length H + Z.to_nat (len (flat_map edata pre)))%nat
+    by (unfold len; lia).
+  rewrite skipn_app. rewrite skipn_all2 by lia.
+  replace (length H + Z.to_nat (len (flat_map edata pre)) - length H)%nat with (Z.to_nat (len (flat_map edata pre))) by lia.
+  cbn [app]. exact HS.
+Qed.
